@@ -119,12 +119,15 @@ type Case struct {
 }
 
 const (
-	slackAfter    = 100 * time.Millisecond // arrival observed on another goroutine than cancel()/Shutdown()
-	slackElapsed  = 250 * time.Millisecond
-	blockMargin   = 10 * time.Second
-	quietJitter   = 25 * time.Millisecond // a run whose canary timers were later than this is "noisy"
-	shortTimeout  = 2000                  // ms: timeouts up to this are "short" (may legitimately cut attempts)
-	shutdownGrace = 50 * time.Millisecond
+	slackAfter   = 100 * time.Millisecond // arrival observed on another goroutine than cancel()/Shutdown()
+	slackElapsed = 250 * time.Millisecond
+	// slackHintBudget: how much earlier than ob.start+elapsed the client may
+	// believe it is when it decides whether a server hint still fits the budget
+	slackHintBudget = 75 * time.Millisecond
+	blockMargin     = 10 * time.Second
+	quietJitter     = 25 * time.Millisecond // a run whose canary timers were later than this is "noisy"
+	shortTimeout    = 2000                  // ms: timeouts up to this are "short" (may legitimately cut attempts)
+	shutdownGrace   = 50 * time.Millisecond
 )
 
 // ---------------------------------------------------------------------
@@ -491,6 +494,21 @@ func genCase(isGRPC bool) func(*rapid.T) Case {
 			}
 			c.Script = append(c.Script, st)
 		}
+		// "budget exhausted by server hints" (gRPC; HTTP hints are unusable while
+		// the Retry-After unit finding is open): every answer asks for a 300 ms
+		// delay, MaxElapsedTime is 500 ms. After the second answer the elapsed
+		// time plus the hint exceeds the budget: the exporter has to give up
+		// instead of sleeping through the hint and sending a third attempt.
+		if isGRPC && c.Plan == "none" && c.RetryEnabled && c.TimeoutMS == 0 && rng(t, "hint_budget", 0, 7) == 0 {
+			c.InitialMS, c.MaxIntervalMS, c.MaxElapsedMS = 1, 5, 500
+			k := rng(t, "hint_budget_len", 2, 4)
+			c.Script = nil
+			for i := 0; i < k; i++ {
+				c.Script = append(c.Script, Step{Kind: "status", Code: int(oneOf(t, "code", codes.Unavailable, codes.ResourceExhausted, codes.Aborted)), RetryInfoMS: 300})
+			}
+			c.Script = append(c.Script, Step{Kind: "status", Code: int(codes.OK), RetryInfoMS: -1})
+			return c
+		}
 		// something must follow the planned attempt, and every script ends in a terminal answer
 		last := c.Script[len(c.Script)-1]
 		if last.Kind == "hold" || last.Kind == "reset" || last.Kind == "slow" || (last.Kind == "status" && stepRetryable(isGRPC, last)) {
@@ -756,9 +774,10 @@ type hintObs struct {
 }
 
 var timingKinds = map[string]bool{
-	"attempt_after_max_elapsed": true,
-	"attempt_after_cancel":      true,
-	"attempt_after_shutdown":    true,
+	"attempt_after_max_elapsed":                 true,
+	"attempt_although_hint_exceeds_max_elapsed": true,
+	"attempt_after_cancel":                      true,
+	"attempt_after_shutdown":                    true,
 }
 
 func describe(es []entry) string {
@@ -845,6 +864,17 @@ func evaluate(c Case, ob observation) []vk.Violation {
 					c.Exporter, i, gap, i-1, prev.Desc, prev.Hint, describe(es))
 				v.Observed = hintObs{Attempt: i, Gap: gap.String(), Hint: prev.Hint.String(), After: prev.Desc}
 				vs = append(vs, v)
+			}
+		}
+		// "gives up once the maximum elapsed time WOULD be exceeded": when the
+		// previous answer carried a (honoured, i.e. gRPC) hint and the time
+		// already elapsed at that answer plus the hint exceeds the budget, no
+		// further attempt may be sent at all. The client's own clock starts a
+		// little after ob.start, hence the slack; a timing kind (reported only
+		// if three quiet runs agree).
+		if c.RetryEnabled && maxElapsed > 0 && ex.grpc && prev.Outcome == oRetryable && prev.Hint > 0 {
+			if at := prev.RespAt - ob.start; at+prev.Hint > maxElapsed+slackHintBudget {
+				bad("attempt_although_hint_exceeds_max_elapsed", "attempt %d was sent although answer %d (%s) came %v after the call started and asked for a delay of %v: %v > MaxElapsedTime %v", i, i-1, prev.Desc, at, prev.Hint, at+prev.Hint, maxElapsed)
 			}
 		}
 		if c.RetryEnabled && maxElapsed > 0 {
